@@ -90,6 +90,11 @@ Definition strFindPlain (s p : bytes) (oinit : option Z) : option (Z * Z) :=
 Definition strRep (s : bytes) (n : Z) : bytes :=
   if n <? 0 then [] else repeat_app s (Z.to_nat n).
 
+(* string.rep refuses a result longer than maxStringRepLen = 2^31-1 bytes (an allocation failure
+   cannot be caught in Go) *)
+Definition rep_limit : Z := 2147483647.
+Definition strRep_raises (s : bytes) (n : Z) : bool := (0 <? n) && (len s * n >? rep_limit).
+
 Definition strReverse (s : bytes) : bytes := rev s.
 Definition strUpper (s : bytes) : bytes := map toupper_c s.
 Definition strLower (s : bytes) : bytes := map tolower_c s.
